@@ -141,3 +141,27 @@ ENGINES[0]['serves_properties'].append('C16')
 LEVEL_TEXT['C16'] = 'Robustness: generated byte strings must parse without memory errors into a consistent object. Grammar: files generated from the documented format are compared with the content their AST defines (sections, keys, values, typed getters).'
 LEVEL_NOTE['C16'] = 'Trusted: the generator AST as the reference for well-formed files (independent of pinifile.c), strtod/strtol for typed values, ASan/UBSan, tracking allocator for leaks.'
 TECHNIQUE['C16'] = 'property-based testing (rapidcheck): grammar-based generation with constructive oracle + byte-level robustness generation under ASan/UBSan'
+
+# ---- C18 ---------------------------------------------------------------------------------------
+harness('fault', 'engines/fault/fault.cpp', 'gcc-asan', libs='-lcrypto')
+harness('fault_general', 'engines/fault/fault.cpp', 'gcc-asan-general', libs='-lcrypto')
+harness('fault_sim', 'engines/fault/fault.cpp', 'gcc-asan-sim', libs='-lcrypto')
+reg(Prop('C18', 'fault_enumeration', [
+    Sub('enum', 'fault', shards=(16, 16), cases=(1, 1), timeout=(900, 3600)),
+    Sub('enum_rwlock_general', 'fault_general', shards=(1, 2), cases=(1, 1), env={'VERIF_SCEN': 'rwlock,sync_objects'}),
+    Sub('enum_spinlock_sim', 'fault_sim', shards=(1, 2), cases=(1, 1), env={'VERIF_SCEN': 'sync_objects,thread_create,thread_local,libsys_cycle'}),
+], rule='scenario table (setup / window / check+teardown) over every allocating module compiled on Linux (trees x3, list, hash table, INI parse and queries, crypto hashes, directory iterator, errors, '
+        'mutex/cond/spinlock/rwlock in posix, general and sim builds, time profiler, semaphore, shm, shm buffer, TCP/UDP sockets incl. accept/receive_from/address getters, socket addresses, strings, '
+        'threads/TLS/foreign threads, library loader, init/shutdown) plus generated windows (whole random histories on tree / hash table / list where every operation must be atomic). '
+        'Each scenario is run once with a counting allocator to learn N = requests inside the window, then once per k in 1..N and mode in {only request k fails, k and all later fail}, each in a forked ASan/UBSan child '
+        '(quick: every k in both modes for the table scenarios and a third of the generated windows; thorough: all generated windows too). Oracle: child exits normally, no sanitizer report; '
+        'pre-existing objects unchanged/usable per model; results are either failure values or correct/degraded content; after teardown no library block, descriptor, /dev/shm name or shared mapping remains. '
+        'Non-trivial = the failing request is not the first of its window (k >= 2); distinct = distinct (scenario, k, mode).',
+    assumptions=['only allocations that go through the p_mem_set_vtable table can be failed (libc-internal allocations of fopen/opendir/getaddrinfo/sem_open/dlopen cannot)',
+                 'for calls that replace a field of their target (p_error_set_*) only validity of the target is asserted',
+                 'NULL entries in lists returned by INI listing calls under allocation failure are tolerated as a degraded result'],
+    corpus_harness='fault', design_ref='4/C18'))
+ENGINES.append(dict(name='fault', path='engines/fault', serves_properties=['C18'], kind_free_text='fault injection: failing allocator (allocation index enumeration), fork per case, resource census'))
+LEVEL_TEXT['C18'] = 'For every listed scenario the finite space of single-allocation failures (index k, once / from k on) is enumerated completely in the thorough tier; each run is checked for crash, leak and damage against a per-scenario model.'
+LEVEL_NOTE['C18'] = 'Trusted: scenario table coverage of entry points (listed in the evidence), ASan/UBSan, tracking allocator and /proc census. Quick tier runs a third of the generated windows.'
+TECHNIQUE['C18'] = 'fault-injection enumeration (failing allocator via p_mem_set_vtable) over hand-listed and generated call sequences, model-based oracle, ASan'
